@@ -704,6 +704,9 @@ class Ctx:
 
     def attempt(self, rule_fn: Any, *args: Any) -> None:
         """run one rule; if it cannot be instantiated (AnalysisError) the others still run and what they found stands"""
+        from . import fold as _fold
+
+        _fold.PROCESS_STATE.clear()  # every rule evaluates in a fresh "process": module-level mutable objects start over
         try:
             rule_fn(*args)
         except AnalysisError as ex:
